@@ -80,10 +80,20 @@ CLAIMS = {
    note="Diagnostic text and ranges are not decided beyond derivation from the offending node.",
    ref="DESIGN.md §2 E1, §3 C15"),
  "C18": dict(
-   technique="static analysis: the C02 position-arithmetic rules (E6) restricted to recovery paths plus decoder-state who-may-call rule",
-   text="Structural necessary conditions of C18 decided statically: in the byte-recovery paths used for incomplete configuration (recoverLeftBytes, trimmed/prefix ranges), every range whose end is moved to the cursor keeps Start at or before End on all CFG paths, byte and column are shifted consistently, and no decoder-level state is written while answering a query on a partially parsed file.",
-   note="Shares E6 and its 9 known findings with C02. Does not decide what the parser recovers for a given broken input.",
+   technique="static analysis: position-construction rules (E6) over every hand-built hcl.Pos/hcl.Range, cross-file compare rule, decoder-state who-may-call rule",
+   text="Structural necessary conditions of C18 (translation invariance) decided statically: (a) every hcl.Pos literal and every in-place shift of a position takes Line, Column and Byte from one base position and shifts Column and Byte by the same amount (a position assembled from another position's Column as Byte, or from mixed bases, stops moving with the text as soon as a line is inserted above); ranges whose end is moved to the cursor keep Start <= End; byte lengths are not used as column counts; (b) byte offsets of two ranges are compared only after their Filenames were compared (otherwise inserting bytes into one file changes results computed for another); (c) no package-level or decoder-level state is written while answering a query (no cached absolute offsets).",
+   note="Shares E6 and its 9 known findings with C02, and the Target.Address finding with C08/C11. Does not decide what the parser recovers around the cursor, nor that every query result position derives from parser ranges beyond the literals and shifts examined.",
    ref="DESIGN.md §2 E6, §3 C18"),
+ "C14": dict(
+   technique="static analysis: obligation rows over symbol emission sites (exactly one per written item, no filter), reviewed field-source table for every Symbol literal, fault-isolation rule for the loop over all paths, JSON remainder rule in ast.DecodeBody, comparator position-key rule, map-order engine",
+   text="Structural necessary conditions of C14 decided statically: symbolsForBody appends exactly one AttributeSymbol per decoded attribute and one BlockSymbol per decoded block with no data filter; nestedSymbolsForExpr appends one symbol per tuple element and one per object item with a known non-null string key; each Symbol literal takes its name, kind, range and nested symbols from the syntax item of its own loop iteration and the accessors return those fields; the result is sorted after the last append by a comparator that orders by byte offset (a total order on one file), reading its keys from the sorted slice; the workspace query appends a symbol exactly when the query is empty or contained in its name, over all files of all paths; inside the loop over all paths a failing path is skipped with continue and nothing else leaves the loop; for JSON, attributes outside the schema are taken from the remainder of PartialContent so no item is decoded twice.",
+   note="Range nesting of children inside parents is a property of the parser's ranges and is not decided; nor are symbol kinds of JSON expressions. The JSON remainder rule accepts only the remainder idiom (an explicit re-filtering of already-decoded names would need a reviewed exception).",
+   ref="DESIGN.md §3 C14"),
+ "C16": dict(
+   technique="static analysis: key-canonicity rules (every marshalled slice field sorted; comparator is a strict weak order reading its keys from the sorted slice; SchemaKey built only from DependencyKeys.MarshalJSON), lookup-result consumer agreement, shared descent rows of all seven features, ownership engine on the schema lookup path, Copy coverage",
+   text="Structural necessary conditions of C16 decided statically: DependencyKeys.MarshalJSON sorts every slice field it marshals (labels by index, attributes by name) with comparators that are strict weak orders over the slice being sorted; every conversion to schema.SchemaKey takes the bytes of that MarshalJSON (so registration via NewSchemaKey and lookup in DependentBodySchema agree); every consumer that accepts LookupSuccessful among alternatives also accepts LookupPartiallySuccessful; completion, hover, semantic tokens, reference targets, reference origins, validation (walker) and label hover all descend into a block with the schema returned by MergeBlockBodySchemas (shared rows), and links are emitted for labels/attributes of the selecting keys under the same result kinds; the second-level lookup happens only for found first-level bodies with dependency-key attributes; the lookup path writes no shared schema memory (the temporary block schema is a Copy) and BlockSchema/BodySchema Copy methods keep every field.",
+   note="Injectivity of the JSON encoding of key values (cty -> JSON) is not decided; nor that dependencyKeysFromBlock reads the right values for every expression form (covered only as far as C01/C15 rows).",
+   ref="DESIGN.md §3 C16"),
 }
 NA = {}
 ALL = ["C%02d" % i for i in range(1, 21)]
